@@ -102,6 +102,25 @@ fn c06_walk_limit_archive() {
     let mut i = 0;
     while i < s.n { assert!(s.log[i] == full[i], "OBL C06.walk.limit.archive: a limited traversal is a prefix of the unlimited one"); i += 1; }
 }
+// the same with a WHERE filter that rejects one entry or member: LIMIT counts the rows that MATCH, not the entries examined - the limited
+// traversal is a prefix of the unlimited filtered one, also when the rejected one is a member of the archive
+#[kani::proof]
+#[kani::unwind(9)]
+fn c06_walk_limit_filter() {
+    let limit: u32 = kani::any();
+    kani::assume(limit <= 7);
+    let full: [u8; 7] = [1, 2, 12, 22, 3, 4, 5];
+    let k: usize = kani::any();
+    kani::assume(k < 7);
+    kani::cover!(limit == 1 && k == 2, "limit 1 with the first member rejected");
+    reset_faults();
+    unsafe { REJECT = full[k]; }
+    let s = walk_f(0, 0, TraversalMode::Bfs, limit, false, true, false, false);
+    let expect = if limit == 0 || limit > 6 { 6 } else { limit as usize };
+    assert!(s.n == expect, "OBL C06.walk.limit.filter: exactly min(L, number of MATCHING rows) rows");
+    let mut i = 0;
+    while i < s.n { let j = if i < k { i } else { i + 1 }; assert!(s.log[i] == full[j], "OBL C06.walk.limit.filter: a limited traversal is a prefix of the unlimited filtered one"); i += 1; }
+}
 #[kani::proof]
 #[kani::unwind(9)]
 fn canary_walk_must_fail() {
@@ -166,6 +185,19 @@ fn c17_unlistable_bfs() { kani::cover!(true); unlistable_check(TraversalMode::Bf
 #[kani::proof]
 #[kani::unwind(9)]
 fn c17_unlistable_dfs() { kani::cover!(true); unlistable_check(TraversalMode::Dfs); }
+// the search ROOT itself cannot be listed: list_search_results discards what the root call returns (`let _result = self.visit_dir(..)`), so by the time
+// that call comes back the failure must have been counted and named - and it must come back Ok (walk_f asserts that), in either mode
+#[kani::proof]
+#[kani::unwind(9)]
+fn c17_unlistable_root() {
+    kani::cover!(true);
+    reset_faults(); unsafe { UNLISTABLE = 0; }
+    let s = walk_f(0, 0, TraversalMode::Bfs, 0, false, false, false, false);
+    assert!(s.n == 0 && s.error_count == 1 && unsafe { DIAG_COUNT == 1 && DIAG_LAST == 0 }, "OBL C17.unlistable.root: an unlistable root gives no row, one counted error (exit status 1) and one diagnostic naming the root");
+    reset_faults(); unsafe { UNLISTABLE = 0; }
+    let d = walk_f(0, 0, TraversalMode::Dfs, 0, false, false, false, false);
+    assert!(d.n == 0 && d.error_count == 1 && unsafe { DIAG_COUNT == 1 && DIAG_LAST == 0 }, "OBL C17.unlistable.root: the same depth-first");
+}
 // an unreadable directory entry, or an entry whose type cannot be determined, costs that entry only
 #[kani::proof]
 #[kani::unwind(9)]
